@@ -99,6 +99,17 @@ P = {
        "Atomicity of the save across crash points is not decided (C10 decides load tolerance).",
   technique="dominance/guard analysis + who-may-write + writer/reader agreement + constant/provenance rule + alphabet set inclusion",
   ref="§4 C09"),
+ "C10": dict(
+  text="May-reach taint on MIR over the code reachable from the phonetic constructor, reload, commit and the key/back-space events: results of "
+       "file I/O and JSON (de)serialisation must not reach the unwrap/expect family or a panicking match arm; bytes read from a user file must "
+       "not be indexed/sliced without a dominating length test; strings that come out of the learned store, the user auto-correct map or the "
+       "memo must not be assumed non-empty or byte-sliced, and reach okkhor's ASCII-only parser only behind an is_ascii filter; the save's "
+       "result guards no state change and the in-memory insert precedes it. This decides tolerance to *every* file content, crash-point prefix "
+       "and directory state at once, because it is a statement about what may flow into a panic at all.",
+  note="Trusted: serde_json and std::fs return Err instead of panicking on malformed input; okkhor is total on ASCII (DESIGN §8); bundled data files "
+       "(Data::new) are out of this property's scope. Unknown callees propagate taint and do not sanitise.",
+  technique="I/O-taint → panic-sink dataflow over MIR (interprocedural through closures), guard dominance, provenance of user-map strings",
+  ref="§4 C10"),
 }
 
 NA_REASON = "rule module not built yet in this round (see DESIGN.md §4 for the planned static rules)"
